@@ -1,4 +1,4 @@
 SPECIFICATION Spec
-CONSTANTS Fams = {"pair", "each", "rand", "long"}  NRand = 40  LongLens = {128, 256, 512, 1024}
+CONSTANTS Fams = {"pair", "each", "rand", "long"}  NRand = 40  AllAux = TRUE  LongLens = {128, 256, 512, 1024}
 INVARIANT Valid ValueInterp DocDivisor Emit
 CHECK_DEADLOCK FALSE
